@@ -2767,3 +2767,76 @@ package otto
 //@   calls math.Tanh(_) as m
 //@   at_call math.Tanh : isGoNumber(argOf(call, 0)) ==> sameFloat(arg0, numOf(argOf(call, 0)))
 //@   ensures isGoNumber(argOf(call, 0)) ==> called(m) && isGoNumber(result) && sameFloat(numOf(result), m)
+
+// 15.1.2.4/5 isNaN / isFinite of ToNumber(x).
+//@ func builtinGlobalIsNaN
+//@   props C13
+//@   requires wfCall(call) && argOK(call, 0)
+//@   stable call.ArgumentList
+//@   ensures isGoNumber(argOf(call, 0)) ==> result.kind == valueBoolean && is(result.value, bool) && (result.value.(bool) <==> isNaN(numOf(argOf(call, 0))))
+//@ func builtinGlobalIsFinite
+//@   props C13
+//@   requires wfCall(call) && argOK(call, 0)
+//@   stable call.ArgumentList
+//@   ensures isGoNumber(argOf(call, 0)) ==> result.kind == valueBoolean && is(result.value, bool) && (result.value.(bool) <==> !isNaN(numOf(argOf(call, 0))) && !isInf(numOf(argOf(call, 0))))
+
+// 15.1.3.3/4: the unescaped sets.  url.QueryEscape leaves A-Z a-z 0-9 - _ . ~ alone; the
+// classes add ! * ' ( ) for both functions and the reserved characters plus # for encodeURI.
+//@ initarg[C13] encodeURIRegexp = `([^~!@#$&*()=:/,;?+'])`
+//@ initarg[C13] encodeURIComponentRegexp = `([^~!*()'])`
+//@ func builtinGlobalEncodeURI
+//@   props C13
+//@   requires wfCall(call) && argsOK(call.ArgumentList) && call.runtime != nil
+//@   at_call encodeDecodeURI : arg0 == call && arg1 == encodeURIRegexp
+//@   calls encodeDecodeURI(_, _) as r
+//@   ensures called(r) && result == r
+//@ func builtinGlobalEncodeURIComponent
+//@   props C13
+//@   requires wfCall(call) && argsOK(call.ArgumentList) && call.runtime != nil
+//@   at_call encodeDecodeURI : arg0 == call && arg1 == encodeURIComponentRegexp
+//@   calls encodeDecodeURI(_, _) as r
+//@   ensures called(r) && result == r
+
+// 15.1.3.1/2: decodeURI keeps the escapes of reserved characters, decodeURIComponent does
+// not; a malformed escape or an invalid UTF-8 sequence is a URIError.
+//@ func builtinGlobalDecodeURI
+//@   props C13
+//@   requires wfCall(call) && argOK(call, 0) && call.runtime != nil
+//@   stable call.ArgumentList
+//@   calls decodeURI(_, _) as d
+//@   at_call decodeURI : arg1
+//@   at_call (*runtime).panicURIError : called(d) && d_1
+//@   ensures called(d) && !d_1 && result.kind == valueString && is(result.value, string) && result.value.(string) == d_0
+//@ func builtinGlobalDecodeURIComponent
+//@   props C13
+//@   requires wfCall(call) && argOK(call, 0) && call.runtime != nil
+//@   stable call.ArgumentList
+//@   calls decodeURI(_, _) as d
+//@   at_call decodeURI : !arg1
+//@   at_call (*runtime).panicURIError : called(d) && d_1
+//@   ensures called(d) && !d_1 && result.kind == valueString && is(result.value, string) && result.value.(string) == d_0
+
+// B.2.1/B.2.2 escape / unescape: the string form of ToString(x) is handed to the coder and the
+// coder's result is the result; the coders never index outside their input or the digit table.
+//@ func builtinGlobalEscape
+//@   props C13
+//@   requires wfCall(call) && argOK(call, 0)
+//@   stable call.ArgumentList
+//@   calls builtinEscape(_) as r
+//@   at_call builtinEscape : argOf(call, 0).kind == valueString && is(argOf(call, 0).value, string) ==> arg0 == argOf(call, 0).value.(string)
+//@   ensures called(r) && result.kind == valueString && is(result.value, string) && result.value.(string) == r
+//@ func builtinGlobalUnescape
+//@   props C13
+//@   requires wfCall(call) && argOK(call, 0)
+//@   stable call.ArgumentList
+//@   calls builtinUnescape(_) as r
+//@   at_call builtinUnescape : argOf(call, 0).kind == valueString && is(argOf(call, 0).value, string) ==> arg0 == argOf(call, 0).value.(string)
+//@   ensures called(r) && result.kind == valueString && is(result.value, string) && result.value.(string) == r
+//@ func builtinEscape
+//@   props C13
+//@   safety C02 C13
+//@   invariant@1 0 <= index && length == len(input)
+//@ func builtinUnescape
+//@   props C13
+//@   safety C02 C13
+//@   invariant@1 0 <= index && length == len(input)
